@@ -16,6 +16,17 @@ def _sym_rtt(conn):
         loss._rtt_smoothed = sx.Real("srtt", 0, 5)
         loss._rtt_variance = sx.Real("rttvar", 0, 5)
     loss.max_ack_delay = sx.Real("max_ack_delay", 0, 1)
+    # probes already fired unanswered (exponential backoff of the PTO timer, RFC 9002 s6.2.1)
+    loss._pto_count = sx.concretize(sx.Int("pto_count", 0, 3))
+
+
+def _pto_spec(loss):
+    """RFC 9002 s6.2.1 written independently of recovery.get_probe_timeout(): the probe timeout WITHOUT
+    backoff -- the unit of the closing period (RFC 9000 s10.2) and of the idle-timeout floor (s10.1)"""
+    if not loss._rtt_initialized:
+        return 2 * loss._rtt_initial
+    v4 = 4 * loss._rtt_variance
+    return loss._rtt_smoothed + sx.ite(v4 > 0.001, v4, 0.001) + loss.max_ack_delay
 
 
 def timer_ob(role):
@@ -50,6 +61,10 @@ def timer_ob(role):
         lt = conn._loss.get_loss_detection_time()
         if lt is not None:
             cands.append(lt)
+            if all(sp.loss_time is None for sp in conn._loss.spaces):
+                # a probe timer: last ack-eliciting transmission + PTO backed off once per unanswered probe
+                exp_pto = conn._loss._time_of_last_sent_ack_eliciting_packet + _pto_spec(conn._loss) * (2 ** conn._loss._pto_count)
+                sx.check(lt == exp_pto, "the probe deadline is not 'last ack-eliciting send + PTO * 2^pto_count'")
         m = cands[0]
         for c in cands[1:]:
             m = sx.ite(c < m, c, m)
@@ -99,8 +114,8 @@ def close_ob(role, how):
             p.deliver(tls.Epoch.ONE_RTT, buf.data, now=now)
             exp_state = QuicConnectionState.DRAINING
         sx.check(conn._state == exp_state, "closing did not enter the %s state" % exp_state.name)
-        pto = conn._loss.get_probe_timeout()
-        sx.check(conn._close_at == now + 3 * pto, "the closing period is not three probe timeouts")
+        pto = _pto_spec(conn._loss)
+        sx.check(conn._close_at == now + 3 * pto, "the closing period is not three probe timeouts (RFC 9002 s6.2.1 PTO, without backoff)")
         sx.check(conn.get_timer() == conn._close_at, "timer is not the end of the closing period")
         early = [e for e in cm.drain_events(conn) if isinstance(e, ConnectionTerminated)]
         sx.check(not early, "termination reported before the closing period ended")
@@ -176,7 +191,7 @@ def idle_ob(role):
             sx.check(conn._close_at == old_deadline, "a packet that failed authentication moved the idle deadline")
             return
         sx.check(conn._close_event is None, "harness: packet refused")
-        pto3 = 3 * conn._loss.get_probe_timeout()
+        pto3 = 3 * _pto_spec(conn._loss)
         neg = local if remote_after is None else sx.ite(remote_after < local, remote_after, local)
         exp = sx.ite(pto3 > neg, pto3, neg)
         sx.check(conn._close_at == now + exp, "the idle deadline is not 'now + max(min(local, peer), 3 PTO)' with the values negotiated so far")
@@ -197,7 +212,7 @@ def obligations(tier):
     obs = []
     for role in ("client", "server"):
         prep, run = timer_ob(role)
-        obs.append(Ob("C09.timer.%s" % role, run, cm.conn_shims, [Q + "get_timer", R + "get_loss_detection_time", R + "get_probe_timeout"], bounds="connected endpoint; closing/idle deadline, per-space ACK and loss times, pacing time and RTT state all symbolic (each source armed or not)", prepare=prep, budget_s=280, max_decisions=1500))
+        obs.append(Ob("C09.timer.%s" % role, run, cm.conn_shims, [Q + "get_timer", R + "get_loss_detection_time", R + "get_probe_timeout"], bounds="connected endpoint; closing/idle deadline, per-space ACK and loss times, pacing time and RTT state all symbolic (each source armed or not); 0..3 unanswered probes (PTO backoff); the probe deadline is compared with RFC 9002 s6.2.1 written independently of get_probe_timeout()", prepare=prep, budget_s=280, max_decisions=1500))
         for how in ("local", "fatal", "peer"):
             prep, run = close_ob(role, how)
             obs.append(Ob("C09.close.%s.%s" % (role, how), run, cm.conn_shims, [Q + "close", Q + "datagrams_to_send", Q + "_close_begin", Q + "_close_end", Q + "handle_timer", Q + "receive_datagram", Q + "_handle_connection_close_frame", R + "get_probe_timeout"], bounds="close initiated by %s at a symbolic instant with symbolic RTT state; second close request, a further packet, the timer at any instant at or after the deadline, then a packet and arbitrary bytes after termination" % {"local": "the application", "fatal": "a protocol error", "peer": "the peer (transport or application CONNECTION_CLOSE, any codes)"}[how], prepare=prep, budget_s=280, max_decisions=1500))
